@@ -4,31 +4,46 @@ SPEC = dict(
                mask=[0, 1, 7, 8, 9, 10, 14, 15, 17], n_quick=110, n_thorough=200)],
     level_text="Theorems (Props/C10.v) over a branch-by-branch transcription of TDigestView::rank / quantile / cdf / pmf / "
                "check_split_points (tdigest/sketch.rs, REPAIRED code) in exact rational arithmetic, for EVERY well-formed view "
-               "(means sorted, weights > 0, min <= first mean, last mean <= max, total = sum of weights, >= 1 centroid; plus "
-               "unit_ends_tight -- a unit first/last centroid sits on min/max -- where a theorem needs it): rank in [0,1], 0 below "
-               "min, 1 above max, non-decreasing; quantile in [min,max], min at 0, max at 1, non-decreasing; cdf = ranks ++ [1] "
-               "for every strictly increasing split list including [], pmf sums to 1 and is non-negative; |rank(quantile q) - q| <= "
-               "(w_i + w_(i+1)) / (2 total) for the centroids whose centres straddle q*total when the means are pairwise distinct, and "
-               "<= (weight of all centroids sharing a mean with one of them) / total for EVERY well-formed view; total_weight = number of finite values offered "
-               "summed over merges and min/max exact for every history whose merge passes satisfy the merge relation. The model "
-               "never reaches a panic site (Stuck) on a well-formed view. Tie: the crate is replayed on crafted images (heavy "
-               "first/last centroids, duplicates, single centroids, power-of-two totals that put q*W on every branch boundary) "
-               "and on streams of every shape through update/merge/freeze/unfreeze/serialize; every rank/quantile/cdf/pmf answer "
-               "of the crate is compared with the exact Q model at 1e-9, every real merge pass is validated by the extracted "
+               "(means sorted, weights > 0, min <= first mean, last mean <= max, total = sum of weights, >= 1 centroid -- heavy "
+               "end centroids and unit-weight end centroids away from min/max included, no further hypothesis): rank in [0,1], 0 "
+               "below min, 1 above max, non-decreasing; quantile in [min,max], min at 0, max at 1, non-decreasing; cdf = ranks ++ "
+               "[1] for every strictly increasing split list including [], pmf sums to 1 and is non-negative; |rank(quantile q) - "
+               "q| <= (w_i + w_(i+1)) / (2 total) for the centroids whose centres straddle q*total when the means are pairwise "
+               "distinct, and <= (weight of all centroids sharing a mean with one of them) / total for EVERY well-formed view. "
+               "Which states are covered: [reach h d] = d is a state of TDigestMut after history h, a history starting from "
+               "new(k) OR from a decoded image satisfying image_ok (k >= 10, consistent weights, sorted means, everything inside "
+               "[min,max]; Props/C17_tdigest.v derives image_ok for what the modelled reader returns when its means are sorted "
+               "and in range) and continuing with update / compress / merge, every merge pass being ANY output allowed by the "
+               "exact merge relation; every compressed non-empty reachable state is a well-formed view "
+               "(c10_reachable_views_are_wellformed), every history meeting its preconditions has a reachable state "
+               "(c10_reach_progress), total_weight = image weight + number of finite values offered, and for histories without an "
+               "image min/max are exact and the end centroids sit on min/max. The model never reaches a panic site (Stuck) on a "
+               "well-formed view. Tie: the crate is replayed on crafted images (heavy first/last centroids, unit end centroids "
+               "away from min/max, duplicates, single centroids, power-of-two totals that put q*W on every branch boundary), on "
+               "such images continued by update / merge, and on streams of every shape (incl. finite values next to f64::MAX and "
+               "heavily repeated values) through update/merge/freeze/unfreeze/serialize; every rank/quantile/cdf/pmf answer of "
+               "the crate is compared with the exact Q model at 1e-9, every real merge pass is validated by the extracted "
                "valid_merge, and the property itself (range, end values, monotonicity up to 4 ulp, cdf/pmf consistency, exact "
                "total/min/max) is evaluated on the crate's observations alone, in debug and release builds.",
-    level_note="The theorems are about the exact-rational model. Monotonicity of the binary64 evaluation is not proved (it can fail "
-               "by an ulp where two branches meet); the oracle checks it on the grids with a 4-ulp allowance. rank monotonicity (and "
-               "with it cdf monotonicity / pmf non-negativity) needs unit_ends_tight: without it rank is NOT monotone (c10_rank_mono_without_tight_ends_refuted, "
-               "known finding tdigest-D17: an image whose first/last centroid has weight 1 but is not min/max; no data set has "
-               "such a summary and the in-process algorithm never produces one). td_total / td_minmax are proved for histories "
-               "whose merge passes satisfy merge_rel (C15); that each real pass does is checked per run (valid_merge), the "
-               "ln-based merge decisions are not recomputed in Coq.",
-    technique="Coq proofs over Q (piecewise-linear interpolation: per-branch bounds + a common monotone majorant/minorant argument) "
-              "+ differential correspondence (Q model vs crate at 1e-9 on exactly representable inputs) + property oracle",
+    level_note="The theorems are about the exact-rational model. (1) [reach] uses the EXACT relation merge_rel 0 while the harness "
+               "validates the crate's passes with valid_merge at tolerance 1e-9 (binary64 group means): a crate execution is an "
+               "instance of [reach] only up to that tolerance; nothing is proved about the rounding. (2) Monotonicity of the "
+               "binary64 evaluation is not proved (it can fail by an ulp where two branches meet); the oracle checks it on the "
+               "grids with a 4-ulp allowance. (3) Binary64 overflow is outside the model: rank and quantile DID leave their "
+               "ranges (inf / NaN) on finite values next to f64::MAX -- fixed defect tdigest-C10-huge-value-overflow (e4ec8a2), "
+               "found by replay, not by proof; the generators now go there. (4) rank monotonicity used to need unit_ends_tight "
+               "and failed without it (former known finding tdigest-D17, reachable by update after deserializing a VALID image): "
+               "the crate was repaired (30e007d) and the theorem now has no extra hypothesis; c10_example_unit_ends / "
+               "c10_example_image_then_update instantiate it on the old witnesses. (5) Decoded images whose means are unsorted or "
+               "outside [min,max] are accepted by the crate's reader but are not image_ok: no theorem covers queries on them "
+               "(harness only). (6) The ln-based merge decisions are not recomputed in Coq; that each real pass satisfies the "
+               "relation is checked per run (valid_merge).",
+    technique="Coq proofs over Q (piecewise-linear interpolation: per-branch bounds + a common monotone majorant/minorant argument; "
+              "invariant over histories started in process or from an image) + differential correspondence (Q model vs crate at "
+              "1e-9 on exactly representable inputs) + property oracle",
     trusted=["slice::binary_search_by with a never-Equal comparator returns the partition point (std; modelled by part_point)",
              "f64 sums of integer weights below 2^53 are exact (the model computes them in Z)",
-             "binary64 evaluation vs exact rationals: compared at 1e-9 relative on dyadic inputs, not proved"],
+             "binary64 evaluation vs exact rationals: compared at 1e-9 relative, not proved; overflow is not modelled"],
     assumptions=["query arguments are not NaN and q is in [0,1] (the crate asserts both)",
                  "weights total below 2^53 (exact f64 conversion of centroids_weight)"],
 )
